@@ -144,17 +144,13 @@ func (h *HTTPHeaders) Set(key, value string) {
 	textproto.MIMEHeader(h.values).Set(key, value)
 }
 
+// SetArr sets all values of a header. Like Set and Get it addresses the
+// header by its canonical name, header names being case-insensitive.
 func (h *HTTPHeaders) SetArr(key string, value []string) {
-	h.values[key] = value
+	h.values[textproto.CanonicalMIMEHeaderKey(key)] = value
 }
 
 func (h *HTTPHeaders) Get(key string) string {
-	_, found := h.values[key]
-
-	if !found {
-		return ""
-	}
-
 	return textproto.MIMEHeader(h.values).Get(key)
 }
 
